@@ -560,7 +560,9 @@ def pool_replay(ob, res, depth=4):
     if "r" not in _pc:
         _pc["r"] = rp.run_real(POOL_REPLAY, {"depth": depth}, timeout=600)
     obs = _pc["r"]
-    if obs.get("failing"):
+    from pyvc.replay import failing_of
+    if failing_of(obs):
+        obs = dict(obs, failing=failing_of(obs))
         return {"reproduced": True, "call": "ObjectPool operation sequence (single thread, fake clock)", "input": obs["failing"], "cases_tried": obs.get("cases")}
     return {"reproduced": False, "searched": obs,
             "note": "lock-discipline / critical-section obligations need a particular thread interleaving: no deterministic replay is attempted"}
